@@ -118,6 +118,29 @@ CHECKS = {
         technique="TLA+ differential model (typed container vs built-in) + TLC invariants; transition replay on real proxies and real built-ins",
         design="5/C17",
     ),
+    "C08": dict(
+        engine="CincoCrypto",
+        text="TLC checks C08_Inverse, C08_ConcreteMethod, C08_FreshIV, C08_WrongKey, C08_XorInvolution (bytes computed in TLA+ "
+        "with the 32-byte key cycled) and C08_MalformedRejected over all sequences of encrypt / decrypt (same and other key) / "
+        "malformed and truncated ciphertexts / 15 shapes of stored secrets; every transition is executed on real KeyFile and "
+        "SecureField objects: AES values are decrypted by an independent implementation under every candidate key, their IV must "
+        "be the output of exactly one os.urandom(16) draw, XOR bytes are compared with TLC's.",
+        note="AES arithmetic and hash functions are symbolic in TLA+ (injective terms with nonce IVs/salts); that the real bytes are standard AES-256-CBC/PKCS7 resp. hash(salt+plaintext) is decided by the abstraction function with independent implementations (pure-Python AES validated against FIPS-197 / SP 800-38A vectors; hashlib); freshness of IVs/salts is observed at os.urandom, not proved; XOR and PKCS7 padding validity are computed concretely in TLA+.",
+        technique="TLA+ symbolic cipher model (concrete XOR/padding) + TLC invariants; transition replay with independent AES as abstraction function",
+        design="5/C08",
+    ),
+    "C09": dict(
+        engine="CincoCrypto",
+        text="TLC checks C09_Exact (challenge succeeds iff the secret is the stored one), C09_FreshSalt, C09_SaltLen, "
+        "C09_Survives (save/load in five formats and challenges never change salt or digest) and C09_HandWrittenHashed over six "
+        "algorithms x eight secrets (empty, Unicode incl. non-NFKC text, 303 characters, bytes, containing ':'); every transition "
+        "is executed on a real ChallengeField: the stored value is mapped to H(alg, salt, pt) by recomputing hashlib over the "
+        "candidate secrets, the salt must be one fresh os.urandom(digest_size) draw, and str/repr/fields/documents are searched "
+        "for the plaintext.",
+        note="AES arithmetic and hash functions are symbolic in TLA+ (injective terms with nonce IVs/salts); that the real bytes are standard AES-256-CBC/PKCS7 resp. hash(salt+plaintext) is decided by the abstraction function with independent implementations (pure-Python AES validated against FIPS-197 / SP 800-38A vectors; hashlib); freshness of IVs/salts is observed at os.urandom, not proved; XOR and PKCS7 padding validity are computed concretely in TLA+.",
+        technique="TLA+ symbolic digest model + TLC invariants/action properties; transition replay with hashlib recomputation as abstraction function",
+        design="5/C09",
+    ),
 }
 
 PENDING_REASON = "check not built yet in this round (planned, see DESIGN.md section 5); nothing is claimed for it"
